@@ -21,6 +21,7 @@ def run(ck):
     tids = gen.Tids()
     progs = contract.programs(ck.seed, n, "abelian", tids=tids)
     progs += contract.matmul_programs(ck.seed, n // 4, "abelian", tids=tids)
+    progs += contract.sparse_rank4_programs(ck.seed, 120 if ck.tier == "quick" else 2500, "abelian", tids=tids)
     ck.cov["rule"] = ("random contractible pairs of sparse abelian arrays over Z2/U1/Z2Z2/U1U1/Z4, ranks 0-3, "
                       "every mode and axes form; distinct = distinct (inputs, axes, mode) programs")
     ck.conform(progs)
